@@ -2,6 +2,13 @@
 
 package index
 
+import (
+	"bytes"
+
+	"github.com/RoaringBitmap/roaring"
+	segment "github.com/blugelabs/bluge_segment_api"
+)
+
 // Read-only accessors used by the verification harness (overlay only; this
 // file is never part of the repository).
 
@@ -45,3 +52,69 @@ func (s *Writer) VerifRootSegmentIDs() (epoch uint64, ids []uint64) {
 
 // VerifDirectory returns the directory the writer operates on.
 func (s *Writer) VerifDirectory() Directory { return s.directory }
+
+// ---- snapshot encoding access (C12)
+
+// VerifSegInfo describes one segment entry of a snapshot file.
+type VerifSegInfo struct {
+	ID         uint64
+	Type       string
+	Version    uint32
+	Deleted    []uint32 // sorted doc numbers; nil = no deleted set recorded
+	HasDeleted bool
+}
+
+type verifStubSegment struct {
+	segment.Segment // nil: only Type and Version are ever called by WriteTo
+	typ             string
+	ver             uint32
+}
+
+func (s *verifStubSegment) Type() string    { return s.typ }
+func (s *verifStubSegment) Version() uint32 { return s.ver }
+
+// VerifEncodeSnapshot produces the file encoding of a snapshot with the given
+// segment entries, through Snapshot.WriteTo.
+func VerifEncodeSnapshot(epoch uint64, segs []VerifSegInfo) ([]byte, error) {
+	snap := &Snapshot{epoch: epoch}
+	for _, si := range segs {
+		ss := &segmentSnapshot{
+			id:      si.ID,
+			segment: &segmentWrapper{Segment: &verifStubSegment{typ: si.Type, ver: si.Version}, refCounter: noOpRefCounter{}},
+		}
+		if si.HasDeleted {
+			ss.deleted = roaring.BitmapOf(si.Deleted...)
+		}
+		snap.segment = append(snap.segment, ss)
+	}
+	var buf bytes.Buffer
+	_, err := snap.WriteTo(&buf, nil)
+	return buf.Bytes(), err
+}
+
+// VerifSegInfos returns the segment entries of a (loaded) snapshot.
+func (i *Snapshot) VerifSegInfos() []VerifSegInfo {
+	var rv []VerifSegInfo
+	for _, s := range i.segment {
+		si := VerifSegInfo{ID: s.id, Type: s.segmentType, Version: s.segmentVersion}
+		if s.segmentType == "" && s.segment != nil {
+			si.Type, si.Version = s.segment.Type(), s.segment.Version()
+		}
+		if s.deleted != nil {
+			si.HasDeleted = true
+			si.Deleted = s.deleted.ToArray()
+		}
+		rv = append(rv, si)
+	}
+	return rv
+}
+
+// VerifDecodeSnapshot runs Snapshot.ReadFrom over raw bytes (no CRC handling).
+func VerifDecodeSnapshot(b []byte) ([]VerifSegInfo, int64, error) {
+	snap := &Snapshot{}
+	n, err := snap.ReadFrom(bytes.NewReader(b))
+	if err != nil {
+		return nil, n, err
+	}
+	return snap.VerifSegInfos(), n, nil
+}
